@@ -28,6 +28,7 @@ class Interp:
         self.assume_mode = False
         self.polarity = True
         self.q_ctx = []
+        D.CURRENT_I = self
 
     # ------------------------------------------------------------------ utilities
     def fresh_value(self, t, hint):
@@ -622,6 +623,13 @@ class Interp:
             last = self.ev(sub, env)
             if i == len(n.values) - 1:
                 return last
+            if isinstance(last, VDyn) and isinstance(n.op, ast.Or) and i == len(n.values) - 2 and not self.ver.no_if_conversion:
+                nxt = n.values[i + 1]
+                if (isinstance(nxt, ast.Dict) and not nxt.keys) or (isinstance(nxt, ast.List) and not nxt.elts) or \
+                        (isinstance(nxt, ast.Constant) and isinstance(nxt.value, (int, float, str, bool, type(None)))):
+                    # `x or {}` / `x or []` / `x or 0`: the default is a side-effect free literal; merge instead of forking
+                    D.wf(self, last.e)
+                    return VDyn(z3.If(D.truth(last), last.e, D.to_dyn(self.ev(nxt, env))))
             # pure boolean fast path: remaining operands are side-effect free comparisons
             t = self.test(last)
             if isinstance(n.op, ast.And) and not t:
@@ -674,6 +682,15 @@ class Interp:
         c = self.ev(n.test, env)
         if self.spec:
             return self.ite(self.truth(c), self.ev(n.body, env), self.ev(n.orelse, env))
+        if isinstance(c, VBool) and not self.ver.no_if_conversion and self._simple_expr(n.body) and self._simple_expr(n.orelse):
+            # `a if c else b` with side-effect free scalar arms: a value-level if-then-else instead of a fork
+            try:
+                tv, fv = self.ev(n.body, env), self.ev(n.orelse, env)
+                scal = (VInt, VReal, VBool, VStr)
+                if isinstance(tv, scal) and isinstance(fv, scal):
+                    return self.ite(c.e, tv, fv)
+            except (Unsupported, TypeError, PyRaise):
+                pass
         if self.test(c):
             return self.ev(n.body, env)
         return self.ev(n.orelse, env)
@@ -1417,8 +1434,93 @@ class Interp:
             return body[0].targets[0].id, body[0].value
         return None
 
+    # -- if / elif / ... / else chains that only assign one local (no fork): `intent = ...` style policy tables
+    def _chain_test_ok(self, e):
+        if isinstance(e, ast.Name):
+            return True
+        if isinstance(e, ast.UnaryOp) and isinstance(e.op, ast.Not):
+            return self._chain_test_ok(e.operand)
+        if isinstance(e, ast.Compare) and len(e.ops) == 1 and \
+                isinstance(e.ops[0], (ast.Lt, ast.LtE, ast.Gt, ast.GtE, ast.Eq, ast.NotEq)):
+            return self._simple_expr(e.left) and self._simple_expr(e.comparators[0])
+        return False
+
+    def _chain_value_ok(self, e):
+        if isinstance(e, ast.IfExp):
+            return self._chain_test_ok(e.test) and self._chain_value_ok(e.body) and self._chain_value_ok(e.orelse)
+        return self._simple_expr(e)
+
+    def _if_chain(self, s, name=None):
+        """-> (name, [(test|None, value expr)...]) for `if t1: x = e1 elif t2: x = e2 ... else: x = en`, else None"""
+        if len(s.body) != 1 or not isinstance(s.body[0], ast.Assign) or len(s.body[0].targets) != 1 or \
+                not isinstance(s.body[0].targets[0], ast.Name) or not self._chain_value_ok(s.body[0].value):
+            return None
+        if not self._chain_test_ok(s.test):
+            return None
+        nm = s.body[0].targets[0].id
+        if name is not None and nm != name:
+            return None
+        if len(s.orelse) == 1 and isinstance(s.orelse[0], ast.If):
+            rest = self._if_chain(s.orelse[0], nm)
+            if rest is None:
+                return None
+            return nm, [(s.test, s.body[0].value)] + rest[1]
+        if len(s.orelse) == 1 and isinstance(s.orelse[0], ast.Assign) and len(s.orelse[0].targets) == 1 and \
+                isinstance(s.orelse[0].targets[0], ast.Name) and s.orelse[0].targets[0].id == nm and \
+                self._chain_value_ok(s.orelse[0].value):
+            return nm, [(s.test, s.body[0].value), (None, s.orelse[0].value)]
+        return None
+
+    def _chain_cond(self, e, env):
+        """truth of a chain test as a z3 Bool without forking; Unsupported when an operand would need forcing"""
+        if isinstance(e, ast.UnaryOp):
+            return z3.Not(self._chain_cond(e.operand, env))
+        if isinstance(e, ast.Name):
+            v = self.ev(e, env)
+            if isinstance(v, (VOptObj, VObj, VUndef)):
+                raise Unsupported("chain test")
+            return self.truth(v)
+        a, b = self.ev(e.left, env), self.ev(e.comparators[0], env)
+        scal = (VInt, VReal, VBool, VStr)
+        if not (isinstance(a, scal) and isinstance(b, scal)):
+            raise Unsupported("chain test operands")
+        if isinstance(e.ops[0], (ast.Lt, ast.LtE, ast.Gt, ast.GtE)) and (isinstance(a, VStr) != isinstance(b, VStr)):
+            raise Unsupported("chain test operands")
+        return self.compare(e.ops[0], a, b)
+
+    def _chain_value(self, e, env):
+        if isinstance(e, ast.IfExp):
+            return self.ite(self._chain_cond(e.test, env), self._chain_value(e.body, env), self._chain_value(e.orelse, env))
+        v = self.ev(e, env)
+        if not isinstance(v, (VInt, VReal, VBool, VStr)):
+            raise Unsupported("chain value")
+        return v
+
+    def try_chain_conversion(self, s, env):
+        ch = self._if_chain(s)
+        if ch is None or (len(ch[1]) <= 2 and not any(isinstance(v, ast.IfExp) for _, v in ch[1])):
+            return False
+        name, arms = ch
+        try:
+            cur = self._chain_value(arms[-1][1], env)
+            for t, v in reversed(arms[:-1]):
+                cur = self.ite(self._chain_cond(t, env), self._chain_value(v, env), cur)
+        except (Unsupported, TypeError, PyRaise):
+            return False        # nothing was executed: Names / constants / comparisons of scalars are pure
+        self.assign(ast.Name(id=name, ctx=ast.Store()), cur, env)
+
+        def cover(st):
+            for x in st.body + st.orelse:
+                self.ver.cover(x)
+                if isinstance(x, ast.If):
+                    cover(x)
+        cover(s)
+        return True
+
     def try_if_conversion(self, s, env):
         cv = None
+        if s.orelse and self.try_chain_conversion(s, env):
+            return True
         # pattern A: if c: x = e   [else: x = e2]
         a = self._simple_assign(s.body)
         b = self._simple_assign(s.orelse) if s.orelse else None
